@@ -71,7 +71,7 @@ Typed values of programs (a JSON scalar stands for itself: str, int, float, bool
          | ["add_class", r, val, prepend] | ["remove_class", r, val] | ["add_style", r, val, prepend]
          | ["set", r, key, val] | ["upd", r, [[[k, val]...]...], [[k, val]...]] | ["del", r, key]
          | ["append", r, [val...]] | ["extend", r, [val...]] | ["insert", r, i, val] | ["iadd", r, [val...]]
-         | ["has_class", r, val] | ["get", r, key] | ["attrs", r] | ["render", r]      (results go to the trace)
+         | ["has_class", r, val] | ["get", r, key] | ["attrs", r] | ["render", r] | ["deps", r, dedup]     (results go to the trace)
          | ["css", [[k, val]...], collapse] | ["escape", s, attr]                      (results go to the trace)
 A step that raises is recorded in the trace as [index, "err", <exception class name>] and the
 program goes on (a creating step then leaves None in its register).
@@ -337,6 +337,8 @@ class Prog:
             return "obs", [[k, _short(v)] for k, v in t.attrs.items()]
         elif op == "render":
             return "obs", digest(str(t))
+        elif op == "deps":
+            return "obs", [[d.name, str(d.version)] for d in t.get_dependencies(dedup=bool(st[2]))]
         elif op == "css":
             return "obs", css(st[2], **self.kw(st[1]))
         elif op == "escape":
@@ -732,6 +734,27 @@ def observe(item: dict, raw: bool = False) -> dict:
             bld = Builder(reuse="opts" in item)
             pr = Prog(bld)
             pr.run(item["steps"])
+            # the same program WITHOUT its read-only steps (has_class / get / attrs / render / deps): what was read
+            # on the way must not show in what the objects are at the end -- their own dependency lists and markup,
+            # asked of the very objects (no tagify() copy in between)
+            reads = ("has_class", "get", "attrs", "render", "deps")
+            if any(st[0] in reads for st in item["steps"]):
+                sh = Prog(Builder(reuse="opts" in item))
+                sh.run([st for st in item["steps"] if st[0] not in reads])
+
+                def direct(y):
+                    return [safe(lambda: [[d.name, str(d.version)] for d in y.get_dependencies(dedup=False)]),
+                            safe(lambda: [[d.name, str(d.version)] for d in y.get_dependencies()]),
+                            _dg(safe(lambda: y.get_html_string()))]
+                for i, (r1, r2) in enumerate(zip(pr.regs, sh.regs)):
+                    if r1 is None or r2 is None or not hasattr(r1, "get_dependencies"):
+                        continue
+                    d1, d2 = direct(r1), direct(r2)
+                    if d1 != d2:
+                        bld.reuse_bad.append("register %d after the program with its read-only steps: get_dependencies(dedup=False) / "
+                                             "get_dependencies() / get_html_string() of the object itself = %r, but %r after the same "
+                                             "program without them" % (i, d1, d2))
+                        break
             return TagList(*[r for r in pr.regs if r is not None]), bld.hc_log, pr.trace, bld.reuse_bad
         return observe_object(mk3, [[kk, Prog(Builder()).val(vv)] for kk, vv in item.get("doc_kw", [])], raw,
                               item.get("doc_opts", []), item.get("opts"))
